@@ -2,6 +2,7 @@ package hdata2
 
 import (
 	"bytes"
+	"crypto/sha256"
 	"encoding/binary"
 	"encoding/json"
 	"fmt"
@@ -159,16 +160,26 @@ func c26Queries(l c26Log) (names []string, qs []module.LogsBloom) {
 }
 
 func TestC26(t *testing.T) {
-	rec := ev.New("C26", "1..12 event logs (addresses from a pool of 4 so that items repeat, 1..4 indexed values incl. nil, empty, address-valued, 1-byte and random values) distributed over 1..4 real receipts (versions 1/2/3, optionally persisted in a receipt list and reloaded), receipt blooms merged in a drawn order (partly through a foreign module.LogsBloom), block bloom also taken through compressed / Bytes / LogBytes / JSON forms; every address and (position,value) is queried with API-built and independently computed 3-bit blooms; non-trivial = at least 2 logs merged; distinct by the list of logs, receipt assignment and merge order")
+	rec := ev.New("C26", "1..12 event logs (one case in ten: a dense block of 40..400 logs over 40 addresses, whose bloom compresses to >= 256 LZW codes) (addresses from a pool of 4 so that items repeat, 1..4 indexed values incl. nil, empty, address-valued, 1-byte and random values) distributed over 1..4 real receipts (versions 1/2/3, optionally persisted in a receipt list and reloaded), receipt blooms merged in a drawn order (partly through a foreign module.LogsBloom), block bloom also taken through compressed / Bytes / LogBytes / JSON forms; every address and (position,value) is queried with API-built and independently computed 3-bit blooms; non-trivial = at least 2 logs merged; distinct by the list of logs, receipt assignment and merge order")
 	defer rec.Flush(t)
 
 	ev.Check(t, 2000, 8000, func(rt *rapid.T) {
-		pool := make([]*common.Address, 4)
+		// dense: a block with hundreds of distinct items. Its 256-byte bloom is 20-60 % full, so the
+		// compressed form is as long as compression gets (>= 256 LZW codes, code width grows to 10 bits)
+		dense := rapid.IntRange(0, 9).Draw(rt, "dense") == 0
+		poolSize := 4
+		if dense {
+			poolSize = 40
+		}
+		pool := make([]*common.Address, poolSize)
 		for i := range pool {
 			id := rapid.SliceOfN(rapid.Byte(), 20, 20).Draw(rt, "id")
 			pool[i] = common.NewAddressWithTypeAndID(i%2 == 0, id)
 		}
 		nLogs := rapid.IntRange(1, 12).Draw(rt, "nLogs")
+		if dense {
+			nLogs = rapid.IntRange(40, 400).Draw(rt, "nLogsDense")
+		}
 		nRcpt := rapid.IntRange(1, 4).Draw(rt, "nReceipts")
 		logs := make([]c26Log, nLogs)
 		for i := range logs {
@@ -215,7 +226,13 @@ func TestC26(t *testing.T) {
 			sb.WriteString(l.String())
 			sb.WriteByte(' ')
 		}
-		desc := fmt.Sprintf("logs=%s versions=%v order=%v foreign=%v persist=%v", sb.String(), vers, order, foreignMerge, persist)
+		logsDesc := sb.String()
+		if dense {
+			labels = append(labels, "denseBlock")
+			h := sha256.Sum256([]byte(logsDesc))
+			logsDesc = fmt.Sprintf("%d logs over %d addresses (sha256 of rendering %x) first: %s", nLogs, poolSize, h[:8], logs[0])
+		}
+		desc := fmt.Sprintf("logs=%s versions=%v order=%v foreign=%v persist=%v", logsDesc, vers, order, foreignMerge, persist)
 		rec.Case(desc, nLogs >= 2, labels...)
 
 		// build receipts
@@ -271,7 +288,11 @@ func TestC26(t *testing.T) {
 
 		forms := map[string]module.LogsBloom{"merged": block}
 		formOrder := []string{"merged", "compressed", "bytes", "logBytes", "json"}
-		forms["compressed"] = txresult.NewLogsBloomFromCompressed(append([]byte{}, block.CompressedBytes()...))
+		cb := block.CompressedBytes()
+		forms["compressed"] = txresult.NewLogsBloomFromCompressed(append([]byte{}, cb...))
+		if len(cb) >= 287 { // 255 codes of 9 bits: the stream reaches 10-bit codes
+			rec.Label("compressedReaches10bitCodes")
+		}
 		forms["bytes"] = txresult.NewLogsBloom(append([]byte{}, block.Bytes()...))
 		forms["logBytes"] = txresult.NewLogsBloom(append([]byte{}, block.LogBytes()...))
 		js, err := json.Marshal(block)
